@@ -21,8 +21,9 @@ DBASE = G.DATA + 0x400
 _SR = ['srs_rfe', 'srs_rfe_iadb', 'srs_rfe_ibda', 'srs_rfe_daib']         # SRSDB+RFEIA, SRSIA+RFEDB, SRSIB+RFEDA, SRSDA+RFEIB
 RETURNS_ARM = {'irq': ['subs', 'ldm^'] + _SR, 'fiq': ['subs', 'ldm^'] + _SR, 'svc': ['movs', 'ldm^'] + _SR,
                'und': ['movs', 'ldm^'] + _SR, 'dabt': ['subs8', 'ldm^8'] + [x + '8' for x in _SR]}
-RETURNS_THUMB = {'irq': ['subs', 'srs_rfe', 'srs_rfe_iadb'], 'fiq': ['subs', 'srs_rfe', 'srs_rfe_iadb'], 'svc': ['movs', 'srs_rfe', 'srs_rfe_iadb'],
-                 'und': ['movs', 'srs_rfe', 'srs_rfe_iadb'], 'dabt': ['subs8', 'srs_rfe8', 'srs_rfe_iadb8']}
+# 'it_subs': the return instruction is the (last and only) slot of an IT block of the handler itself
+RETURNS_THUMB = {'irq': ['subs', 'srs_rfe', 'srs_rfe_iadb', 'it_subs'], 'fiq': ['subs', 'srs_rfe', 'srs_rfe_iadb', 'it_subs'], 'svc': ['movs', 'srs_rfe', 'srs_rfe_iadb', 'it_subs'],
+                 'und': ['movs', 'srs_rfe', 'srs_rfe_iadb', 'it_subs'], 'dabt': ['subs8', 'srs_rfe8', 'srs_rfe_iadb8', 'it_subs8']}
 
 
 def _intc_const_arm(rd):
@@ -77,6 +78,8 @@ def handler_thumb(kind, ret, clobber=True, mode=None):
         return [T.push(0x0F)] + body + [T.pop(0x0F), T.subs_pc_lr(2)]
     if base in ('subs', 'movs'):
         return [T.push(0x0F)] + body + [T.pop(0x0F), T.subs_pc_lr(adj)]
+    if base == 'it_subs':
+        return [T.push(0x0F)] + body + [T.pop(0x0F), T.dp(10, 0, 0), T.it(0, 8), T.subs_pc_lr(adj)]      # CMP r0,r0 ; IT EQ ; SUBSEQ pc,lr,#adj
     if base == 'srs_rfe':
         pre = [0xF1AE0E00 | adj] if adj else []                  # SUB.W lr, lr, #adj
         return pre + [T.srs(mode, db=1, w=1), T.push(0x0F)] + body + [T.pop(0x0F), T.rfe(13, db=0, w=1)]
